@@ -164,7 +164,13 @@ impl<T> Array<T> {
         let data = data.into();
         let shape = shape.into();
 
-        if data.len() == shape.elements() {
+        // The product of the axis lengths may overflow for shapes read from untrusted input, in
+        // which case no data can match it
+        let elements = shape
+            .iter()
+            .try_fold(1usize, |acc, &x| acc.checked_mul(x));
+
+        if elements == Some(data.len()) {
             Ok(Array::new_unchecked(data, shape))
         } else {
             Err(ShapeError {
